@@ -78,7 +78,23 @@ func zzSamePoint(a, b Point) bool {
 func C05Containers() {
 	im := &zzImpl{}
 	p := MakeContainers(nil, zzServe("Containers", ContainersObject(im), (&stubContainers{}).metaObject()))
-	switch sym.Choose("method", 7) {
+	switch sym.Choose("method", 8) {
+	case 7:
+		// a long list argument (4100 elements: more than any fixed-size buffer or guard of the generated
+		// reader): the implementation receives all of it and the result comes back
+		const n = 4100
+		sym.SetMaxMaterialise(1 << 16)
+		vals := make([]int32, n)
+		vals[0], vals[4095], vals[4096], vals[n-1] = sym.I32("v-first"), sym.I32("v-4095"), sym.I32("v-4096"), sym.I32("v-last")
+		im.retSum = sym.I64("ret")
+		got, err := p.Sum(vals)
+		sym.Assert(err == nil, "long-sum/call-ok")
+		sym.Assert(len(im.values) == n, "long-sum/argument-length")
+		if len(im.values) == n {
+			sym.Assert(sym.And(sym.And(im.values[0] == vals[0], im.values[4095] == vals[4095]),
+				sym.And(im.values[4096] == vals[4096], im.values[n-1] == vals[n-1])), "long-sum/argument-element")
+		}
+		sym.Assert(got == im.retSum, "long-sum/result")
 	case 5:
 		// a map of lists, two entries with lists of the same length, as argument and as result
 		gr := map[string][]int32{"a": {sym.I32("a0"), sym.I32("a1")}, "b": {sym.I32("b0"), sym.I32("b1")}}
